@@ -2,7 +2,8 @@
 Line-protocol engine `header` (C47).
 ops:
   enc v t st ri c     -> hex of the 16 encoded bytes
-  parse <hex>         -> `err` | `v t st reserved ri c`
+  parse <hex>         -> `err` | `v t st reserved ri c`   (input is a prefix of a larger stale buffer)
+  parsex <hex>        -> same, input in an exactly-sized allocation
   valid t s           -> 0|1
 -/
 import Nebula.Driver.Common
@@ -37,7 +38,8 @@ def step (s : Unit) (args : List String) (impl : String) : Unit × Out :=
             else s!"bad enc-roundtrip got={showH h}"
       (s, { model := m, verdict := verdict, tag := "enc" })
     | _, _, _, _, _ => (s, badOp)
-  | ["parse", hex] =>
+  | [op, hex] =>
+    if op != "parse" && op != "parsex" then (s, badOp) else
     match hexToBytes hex with
     | none => (s, badOp)
     | some b =>
